@@ -1,10 +1,137 @@
-/- line-protocol handlers for Model/HandGlyf.lean.  All commands are prefixed `hg.`. -/
+/- line-protocol handlers for Model/HandGlyf.lean.  All commands are prefixed `hg.`.
+
+* `hg.points <glyph hex>`                      generated `SimpleGlyph::read`, then `num_points`,
+                                               `has_overlapping_contours`, `points()`
+* `hg.fast <glyph hex> <pl> <fl> <p> <mask>`   `read_points_fast::<i32>` on a point buffer of `pl` and a
+                                               flag buffer of `fl` entries, each preset to bits `p`
+* `hg.comp <glyph hex>`                        generated `CompositeGlyph::read`, then `components()`,
+                                               `component_glyphs_and_flags()`, `count_and_instructions()`,
+                                               `instructions()`
+* `hg.loca <0|1> <loca hex> <glyf hex> | <indices> | <glyph ids>`
+                                               `Loca::read`, `len`, `is_empty`,
+                                               `all_offsets_are_ascending`, `get_raw`, `get_glyf`
+-/
 import FontVerif.Model.HandGlyf
+import FontVerif.Drv.C01Iter
 namespace FontVerif.Drv.C01HandGlyf
 open FontVerif FontVerif.ReadIter FontVerif.HandRead FontVerif.HandGlyf
 
+def u16OfInt (v : Int) : Nat := (v % 65536).toNat
+def u32OfInt (v : Int) : Nat := (v % 4294967296).toNat
+
+def gerrStr : GErr → String
+  | .oob => "eO"
+  | .invalidArrayLen => "eL"
+  | .malformed => "eM"
+
+/-- the parts of a simple glyph the hand-written functions work on: `end_pts_of_contours()` and
+`glyph_data()` of the generated reader (`Glyf.readSimple`) -/
+def simpleParts (b : List Nat) : Option (List Nat × List Nat) :=
+  (Glyf.readSimple b).map (fun v => (v.endPts, v.glyphData))
+
+/-- generated `CompositeGlyph::read`: ten header bytes, the rest is `component_data()` -/
+def compositeData (b : List Nat) : Option (List Nat) :=
+  if b.length < 10 then none else some (b.drop 10)
+
+/-- generated `Glyph::read` succeeds (format dispatch on the sign of `numberOfContours`) -/
+def glyphReadOk (b : List Nat) : Bool :=
+  match Glyf.i16At b 0 with
+  | none => false
+  | some nc => if nc ≥ 0 then (Glyf.readSimple b).isSome else decide (b.length ≥ 10)
+
+def ptRow (p : Pt) : List Nat := [u16OfInt p.1, u16OfInt p.2.1, if p.2.2 then 1 else 0]
+
+def compRow (c : Comp) : List Nat :=
+  let a := match c.anchor with
+    | .offset x y => [1, u16OfInt x, u16OfInt y]
+    | .point b k => [2, b, k]
+  [c.flags, c.gid] ++ a ++ [u16OfInt c.t.xx, u16OfInt c.t.yx, u16OfInt c.t.xy, u16OfInt c.t.yy]
+
+def natsOrEmpty (xs : List String) : Option (List Nat) := if xs = ["-"] then some [] else parseNats? xs
+
+def splitBar (xs : List String) : List String × List String :=
+  (xs.takeWhile (· ≠ "|"), (xs.dropWhile (· ≠ "|")).drop 1)
+
+def joinStrs (xs : List String) : String := if xs.isEmpty then "-" else " ".intercalate xs
+
 def handle (cmd : String) (args : List String) : Option String :=
   match cmd, args with
+  | "hg.points", [hex] =>
+    match parseHex? hex with
+    | none => none
+    | some b =>
+      match simpleParts b with
+      | none => some "err"
+      | some (ends, gd) =>
+        let np := match numPoints ends with | some n => toString n | none => "trap"
+        let ov := if hasOverlappingContours gd then 1 else 0
+        match points ends gd with
+        | none => some s!"{np} {ov} trap"
+        | some evs =>
+          if trapped evs then some s!"{np} {ov} trap"
+          else some s!"{np} {ov} {Drv.C01Iter.summary ((items evs).map ptRow)}"
+  | "hg.fast", [hex, pl, fl, p, mask] =>
+    match parseHex? hex, pl.toNat?, fl.toNat?, p.toNat?, mask.toNat? with
+    | some b, some pl, some fl, some p, some mask =>
+      match simpleParts b with
+      | none => some "err"
+      | some (ends, gd) =>
+        match readPointsFast ends gd pl (List.replicate fl p) mask with
+        | .err e => some (gerrStr e)
+        | .trap => some "trap"
+        | .fuel => some "fuel"
+        | .ok pts => some s!"ok {Drv.C01Iter.summary (pts.map (fun t => [u32OfInt t.1, u32OfInt t.2.1, t.2.2]))}"
+    | _, _, _, _, _ => none
+  | "hg.comp", [hex] =>
+    match parseHex? hex with
+    | none => none
+    | some b =>
+      match compositeData b with
+      | none => some "err"
+      | some d =>
+        let comps := match components d with
+          | none => "fuel"
+          | some evs => if trapped evs then "trap" else Drv.C01Iter.summary ((items evs).map compRow)
+        let gf := match glyphsAndFlags d with
+          | none => "fuel"
+          | some evs => if trapped evs then "trap" else Drv.C01Iter.summary ((items evs).map (fun (p : Nat × Nat) => [p.1, p.2]))
+        let instrStr := fun (i : Option (Nat × Nat)) => match i with
+          | none => "n"
+          | some (a, k) => s!"{k}:{Drv.C01Iter.fnv ((d.drop a).take k)}"
+        let ci := match countAndInstructions d with
+          | .ok (count, instr) => s!"{count} {instrStr instr}"
+          | .err e => gerrStr e
+          | .trap => "trap"
+          | .fuel => "fuel"
+        let ins := match instructions d with
+          | .ok instr => instrStr instr
+          | .err e => gerrStr e
+          | .trap => "trap"
+          | .fuel => "fuel"
+        some s!"{comps} | {gf} | {ci} {ins}"
+  | "hg.loca", long :: lhex :: ghex :: rest =>
+    let (_, r1) := splitBar rest
+    let (idxS, gidS) := splitBar r1
+    match parseHex? lhex, parseHex? ghex, natsOrEmpty idxS, natsOrEmpty gidS with
+    | some ld, some gd, some idxs, some gids =>
+      if long ≠ "0" ∧ long ≠ "1" then none else
+      match locaRead ld (long = "1") with
+      | .error .oob => some "eO"
+      | .error .invalidArrayLen => some "eL"
+      | .ok l =>
+        let raws := idxs.map (fun i => match l.getRaw i with
+          | .ok (some v) => toString v
+          | .ok none => "-"
+          | .err e => gerrStr e
+          | .trap => "trap"
+          | .fuel => "fuel")
+        let ggs := gids.map (fun g => match l.getGlyf gd.length g with
+          | .err e => gerrStr e
+          | .trap => "trap"
+          | .none => "n"
+          | .slice a b => if glyphReadOk ((gd.drop a).take (b - a)) then s!"s{a}:{b}" else "eO")
+        some s!"{l.len} {if l.isEmpty then 1 else 0} {if l.allAscending then 1 else 0} | {joinStrs raws} | {joinStrs ggs}"
+    | _, _, _, _ => none
   | _, _ => none
 
 end FontVerif.Drv.C01HandGlyf
